@@ -104,6 +104,17 @@ def run(ctx):
             R.obligation(*o)
         for inst in res.get("instances", []):
             R.instance(*inst)
+    # ---- COVER: every handwritten function or closure reachable from the entry points was visited by one of the
+    # analyses; what the in-context analyses did not reach (a closure handed to a library adaptor that is not evaluated,
+    # a helper only used by such a closure) is analysed stand-alone with unconstrained arguments
+    seen_fns = set()
+    for res in results:
+        seen_fns.update(res.get("analysed", []))
+    unseen = [p for p in reach if p not in seen_fns and F.body(p) is not None]
+    if unseen:
+        # modular pass of lib_panic (handles fold accumulators by the counter axiom, rescues private helpers in context)
+        lib_panic.check(ctx, [], unseen, rule="PANIC", modular=True, fold_scope=reach)
+    R.instance("COVER", "%d reachable handwritten functions / closures: %d visited in context, %d analysed stand-alone" % (len(reach), len(reach) - len(unseen), len(unseen)))
     for c in lib_parse.CUTS:
         R.instance("NOMC", "%s: weak parser contract assumed at %d call site evaluation(s)" % (c, used.get(c, 0)))
     R.assumptions.append("I(Message): every String/Vec inside the message has length <= %d; header.overall_length() does not overflow u16" % I_MAX_STR)
